@@ -153,3 +153,57 @@ Print Assumptions c06_never_split_under_any_schedule.
 Print Assumptions c06_insert_never_lost_under_any_schedule.
 Print Assumptions c06_instance_alert_joins_exactly_its_groups.
 Print Assumptions c06_instance_stored_alert_was_published_and_routed.
+
+(* ====================================================================================================== *)
+(* PROVIDER x GROUP (Model/Ingest.v): the alert a group receives is computed from the alert as submitted.   *)
+(* ====================================================================================================== *)
+From AM Require Model.Provider Proofs.ProviderProofs.
+From AM Require Import Model.Ingest Proofs.IngestProofs.
+
+(* "... and is recreated, with a fresh group_wait, by the next alert": a submitted activation that starts at or after
+   the end of what the provider holds for its label set (a re-fire after the resolution; or a label set the provider no
+   longer holds), arriving when the group does not exist, is stored as submitted and creates the group holding exactly
+   it, armed group_wait after the arrival — at once only if the NEW activation itself started more than group_wait
+   ago. For every provider state and group configuration. *)
+Theorem c06_ingest_refire_gets_fresh_group_wait cfg P t x a P' o :
+  istep cfg P t (IPut true x a) = Some (P', o) -> s_group (in_g P) = None ->
+  AlertMerge.a_starts a <= AlertMerge.a_ends a ->
+  (forall old, in_store P !! AlertMerge.a_labels a = Some old ->
+     AlertMerge.a_starts old <= AlertMerge.a_ends old /\ AlertMerge.a_ends old <= AlertMerge.a_starts a) ->
+  in_store P' !! AlertMerge.a_labels a = Some a /\ o = [] /\
+  s_group (in_g P') =
+    Some (mkGr [group_alert x a] (if AlertMerge.a_starts a + g_wait cfg <? t then t else t + g_wait cfg) None).
+Proof. exact (refire_fresh_wait cfg P t x a P' o). Qed.
+
+(* the product is an accepted run of the group model and a history of the provider model *)
+Theorem c06_ingest_is_a_group_run cfg h P P' outs :
+  irun cfg P h = Some (P', outs) -> Group.run cfg (in_g P) (iview cfg P h) = Some (in_g P', outs).
+Proof. exact (irun_proj cfg h P P' outs). Qed.
+
+Theorem c06_ingest_store_is_the_provider_history cfg (E : Provider.env) h P P' outs :
+  irun cfg P h = Some (P', outs) -> in_store P' = Provider.run_state E (in_store P) (IngestProofs.sview h).
+Proof. exact (irun_store cfg E h P P' outs). Qed.
+
+(* non-vacuity: alert 1 fires, is resolved and notified (group destroyed), fires again 300 later with its own start:
+   the recreated group waits group_wait again *)
+Definition ix_ls : list (string * string) := [("alertname", "A")].
+Definition ix_cfg : gcfg := mkG 10 50 1000 20 5000 [mkI true].
+Definition ix_hist : list (Z * iev) :=
+  [ (100, IPut true 1 (AlertMerge.mkAlert ix_ls [] 100 400 "" 100 false));
+    (110, IGrp (ETick 110 [])); (110, IGrp (EDedup 0)); (111, IGrp (EAttempt 0 OK)); (111, IGrp EFlushEnd);
+    (120, IPut true 1 (AlertMerge.mkAlert ix_ls [] 100 120 "" 120 false));
+    (160, IGrp (ETick 160 [])); (160, IGrp (EDedup 0)); (161, IGrp (EAttempt 0 OK)); (161, IGrp EFlushEnd);
+    (500, IPut true 1 (AlertMerge.mkAlert ix_ls [] 500 900 "" 500 false)) ].
+Example c06_ingest_nonvacuous :
+  match irun ix_cfg (iinit ix_cfg 0) ix_hist with
+  | Some (P, outs) =>
+      s_group (in_g P) = Some (mkGr [mkA 1 500 900 500] 510 None) /\
+      outs = [ OFlush [mkF 1 false 100]; ONotify 0 RFirst [mkF 1 false 100] OK; OLog 0 [1] [] 111; OFlushEnd true;
+               OFlush [mkF 1 true 120]; ONotify 0 RAllResolved [mkF 1 true 120] OK; OLog 0 [] [1] 161; OFlushEnd true ]
+  | None => False
+  end.
+Proof. vm_compute. split; reflexivity. Qed.
+
+Print Assumptions c06_ingest_refire_gets_fresh_group_wait.
+Print Assumptions c06_ingest_is_a_group_run.
+Print Assumptions c06_ingest_store_is_the_provider_history.
